@@ -230,14 +230,15 @@ def main_check(prop, tier, seed, runs_override=None, workers=None):
     MAX_FULL, MAX_LINES, BUDGET_S = 6, 40, 900
     t_min = time.time()
     families = set()
+    irreproducible = []
     new.sort(key=lambda kv: (len(kv[0]), kv[0]))
     for klass, vs in new:
         vs.sort(key=lambda vj: len(kernel.jdump(vj["payload"])))   # smallest payload first: cheaper minimisation
         v = Violation.from_json(vs[0])
         fam = "|".join(klass.split("|")[:2])
         full = fam not in families and len(families) < MAX_FULL and time.time() - t_min < BUDGET_S
-        exit_code = EXIT_VIOLATION
         if not full:
+            exit_code = EXIT_VIOLATION
             if len(reported) < MAX_LINES:
                 path = kernel.write_replay(prop, v.klass, v.detail, v.payload, seed,
                                            {"occurrences_in_batch": len(vs), "tags": v.tags, "minimised": False})
@@ -245,11 +246,14 @@ def main_check(prop, tier, seed, runs_override=None, workers=None):
                 print(f"  class={klass} (not minimised: same family as a minimised one or over the per-run budget)\n  detail={v.detail}")
                 reported.append({"class": klass, "replay": path, "occurrences": len(vs), "minimised": False})
             continue
-        families.add(fam)
         got = mod.replay(v.payload)
         if not any(g.klass == klass for g in got):
-            raise HarnessError(f"violation class {klass!r} did not reproduce in-process from its own payload; "
-                               f"got {[g.klass for g in got]}")
+            # never report what cannot be replayed; remembered, and a harness error only if nothing at all can be reported
+            irreproducible.append((klass, [g.klass for g in got]))
+            print(f"HARNESS-NOTE: class {klass!r} did not reproduce in-process from its own payload (got {[g.klass for g in got][:4]}); "
+                  f"not reported", file=sys.stderr)
+            continue
+        families.add(fam)
         v = minimise(mod, v)
         path = kernel.write_replay(prop, v.klass, v.detail, v.payload, seed, {"occurrences_in_batch": len(vs), "tags": v.tags, "minimised": True})
         ok, outp = confirm_in_fresh_interpreter(prop, path, klass)
@@ -258,8 +262,12 @@ def main_check(prop, tier, seed, runs_override=None, workers=None):
         print(f"VIOLATION property={prop} replay={path}")
         print(f"  class={klass}\n  detail={v.detail}")
         reported.append({"class": klass, "replay": path, "occurrences": len(vs), "minimised": True})
-    if len(new) > len(reported):
-        print(f"[{prop}] {len(new) - len(reported)} further violation classes not listed individually")
+        exit_code = EXIT_VIOLATION
+    if len(new) > len(reported) + len(irreproducible):
+        print(f"[{prop}] {len(new) - len(reported) - len(irreproducible)} further violation classes not listed individually")
+    if irreproducible and not any(r.get("minimised") for r in reported):
+        raise HarnessError(f"{len(irreproducible)} violation classes did not reproduce from their own payloads and none did: "
+                           f"{irreproducible[:3]}")
 
     wall = time.time() - t0
     desc = mod.describe()
@@ -281,6 +289,7 @@ def main_check(prop, tier, seed, runs_override=None, workers=None):
         "components": desc.get("components", {}),
         "known_findings_hit": {fid: n for fid, (e, n, _) in sorted(known_hits.items())},
         "new_violations": reported,
+        "irreproducible_classes_dropped": [k for k, _ in irreproducible],
         "exhaustive": bool(desc.get("exhaustive", False)),
     }
     cov.update(desc.get("extra_coverage", {}))
